@@ -424,3 +424,33 @@ def nested_axial_in_axial_does_not_add(k1: int, k2: int):
     g2 = _axial(zc, mid)
     loc = IndexLocation(0, 0, k2, g2)
     assert loc.getCompleteIndices() == (0, 0, k2)
+
+
+# ----------------------------------------------------------------------------- constructors establish the invariants used above
+@lemma(gen={"ncells": (1, 4), "i": (-6, 6), "j": (-6, 6)})
+def constructors_establish_grid_invariants(ncells: int, i: int, j: int, z0: float, dz: float, pitch: float):
+    """real __init__ paths: which axes are step/bounds defined, axial-only classification (also for ONE cell), nesting"""
+    assume(dz > 0 and pitch > 0)
+    ncells = choose(ncells, 1, 4)
+    zb = [z0 + m * dz for m in range(ncells + 1)]
+    core = new(Composite, parent=new(Composite, parent=None, spatialLocator=CoordinateLocation(0.0, 0.0, 0.0, None)))
+    core.spatialLocator = CoordinateLocation(0.0, 0.0, 0.0, None)
+    cg = HexGrid.fromPitch(pitch, numRings=1, armiObject=core)
+    assert not cg.isAxialOnly
+    assert cg._stepDims == ((0, 1, 2),) and cg._boundDims == ((),)
+    assert eq(cg.pitch, pitch)
+    assem = new(Composite, parent=core)
+    assem.spatialLocator = IndexLocation(i, j, 0, cg)
+    ag = AxialGrid(bounds=(None, None, zb), armiObject=assem)
+    assert ag.isAxialOnly, "a 1-D axial grid is axial-only whatever its number of cells"
+    assert ag._stepDims == ((0, 1),) and ag._boundDims == ((2,),)
+    assert len(ag) == ncells + 1
+    for k in range(ncells):
+        loc = ag[(0, 0, k)]
+        assert loc.getCompleteIndices() == (i, j, k), "block indices compose with the assembly's"
+        c = loc.getLocalCoordinates()
+        assert eq(c[2], z0 + (k + 0.5) * dz)
+    cart = CartesianGrid.fromRectangle(pitch, 2.0 * pitch, numRings=1, isOffset=True)
+    assert not cart.isAxialOnly
+    assert not cart._isThroughCenter()
+    assert eq(cart.getCoordinates((0, 0, 0))[0], pitch / 2.0) and eq(cart.getCoordinates((0, 0, 0))[1], pitch)
